@@ -177,6 +177,9 @@ def transform_latents_with_parents(
         graph.add_edges_from(itt.product(parents, children))
 
         new_node = Variable(f"{latent_node}{suffix}")
+        while new_node in graph:
+            # the replacement must be a new node, not one that already carries this name
+            new_node = Variable(f"{new_node}{suffix}")
         graph.add_node(new_node, **{tag: True})
         for child in children:
             graph.add_edge(new_node, child)
